@@ -1,0 +1,6 @@
+//go:build !verif
+
+package reactive
+
+// verifHookWaitGroupAdd is a no-op unless the package is built with the verif tag (see verif_hook_on.go).
+func verifHookWaitGroupAdd() {}
